@@ -169,10 +169,33 @@ class Env:
         for h in list(self.logger.handlers):
             self.logger.removeHandler(h)
         self.logger.addHandler(_H())
+        # kopf's own per-object loggers (used when the harness goes through process_resource_event)
+        klog = logging.getLogger('kopf.objects')
+        klog.setLevel(logging.DEBUG)
+        klog.propagate = False
+        for h in list(klog.handlers):
+            if type(h).__name__ == '_H':
+                klog.removeHandler(h)
+        klog.addHandler(_H())
+        # the API side of a pass: application.apply is replaced by a recorder; the harness's server applies the patch
+        from kopf._core.actions import application
+        self.application = application
+        self.applied: list[dict] = []
+        if not hasattr(application, 'apply'):
+            raise RuntimeError('observation point missing: application.apply')
+
+        async def apply_recorder(*, settings: Any, resource: Any, body: Any, patch: Any, delays: Any, logger: Any,
+                                 stream_pressure: Any = None) -> Any:
+            self.applied.append({'patch': patch, 'delays': list(delays)})
+            return True, None, None
+        self.apply_recorder = apply_recorder
+        self.real_apply = getattr(application.apply, '_kv_orig', application.apply)
+        apply_recorder._kv_orig = self.real_apply       # type: ignore[attr-defined]
 
         # observation points (wrappers installed in this process only; fail closed if they moved)
         self.seen_causes: list[Any] = []
         self.seen_changing: list[Any] = []
+        self.seen_memory: list[Any] = []
         orig_detect = processing._detect_causes
         orig_changing = processing.process_changing_cause
         if getattr(orig_detect, '_kv_wrapped', False):
@@ -181,6 +204,8 @@ class Env:
         env = self
 
         def detect_wrapper(*a: Any, **kw: Any) -> Any:
+            mem = kw.get('memory')
+            env.seen_memory.append((bool(mem.noticed_by_listing), bool(mem.fully_handled_once)) if mem is not None else None)
             res = orig_detect(*a, **kw)
             env.seen_causes.append(res)
             return res
@@ -477,12 +502,31 @@ class Registry:
             h = self.reg._changing.get_all_handlers()[-1]
             self.handlers.append(h)
             self.keys.append(keymap.setdefault((d['fn'], h.id), len(keymap)))
+        # observation point on the harness's own registry instance: what process_changing_cause SELECTED
+        # (execute_handlers_once then runs only the unfinished, awake ones of these: C02)
+        self.selected: list[list[int]] = []
+        orig_get = self.reg._changing.get_handlers
+
+        def get_handlers(*a: Any, **kw: Any) -> Any:
+            res = orig_get(*a, **kw)
+            self.selected.append([h.param for h in res])
+            return res
+        self.reg._changing.get_handlers = get_handlers      # type: ignore[method-assign]
 
     def _mkfn(self, name: str) -> Any:
         calls = self.calls
 
+        behav = next((d.get('behav', 'ok') for d in self.decls if d['fn'] == name), 'ok')
+        kopf = self.env.kopf
+        count = [0]
+
         async def fn(**kw: Any) -> None:
             calls.append({'fn': name, 'reg': kw['param'], 'reason': str(kw['reason']), 'body': copy.deepcopy(dict(kw['body']))})
+            count[0] += 1
+            if behav == 'perm':
+                raise kopf.PermanentError('scripted permanent failure')
+            if behav == 'flaky' and count[0] % 2 == 1:
+                raise kopf.TemporaryError('scripted temporary failure', delay=0)
         fn.__name__ = name
         return fn
 
@@ -494,6 +538,7 @@ def run_pass(env: Env, R: Registry, memory_box: dict, ev: Any, obj: dict, carrie
     env.seen_changing.clear()
     env.messages.clear()
     R.calls.clear()
+    R.selected.clear()
     body = env.bodies.Body(obj)
     patch = env.patches.Patch(copy.deepcopy(carried) if carried else {}, body=body)
     settings = env.settings_by[memory_box.get('diffbase', 'annotations')]
@@ -525,11 +570,64 @@ def run_pass(env: Env, R: Registry, memory_box: dict, ev: Any, obj: dict, carrie
         'initial': memory_box.get('initial', False),
         'changing': list(env.seen_changing),
         'calls': copy.deepcopy(R.calls),
+        'selected': list(R.selected[0]) if R.selected else [],
         'block': any('Adding the finalizer' in m for m in env.messages),
         'allow_early': any('as there are no handlers requiring it' in m for m in env.messages),
         'release': any('thus allowing the actual deletion' in m for m in env.messages),
         'n_block_fns': sum(1 for f in patch.fns if getattr(f, 'func', None) is env.finalizers.block_deletion),
         'n_allow_fns': sum(1 for f in patch.fns if getattr(f, 'func', None) is env.finalizers.allow_deletion),
+    }
+
+
+def run_event(env: Env, R: Registry, wbox: dict, ev: Any, obj: dict) -> dict:
+    """One call of the real process_resource_event (memories.recall/forget, _detect_causes, process_resource_causes,
+    process_changing_cause) with the API side recorded. wbox = {'memories': ResourceMemories, 'diffbase': ..., 'loop': ...}."""
+    env.seen_causes.clear()
+    env.seen_changing.clear()
+    env.seen_memory.clear()
+    env.messages.clear()
+    env.applied.clear()
+    R.calls.clear()
+    R.selected.clear()
+    settings = env.settings_by[wbox.get('diffbase', 'annotations')]
+    try:
+        fetched_none: Any = settings.persistence.diffbase_storage.fetch(body=env.bodies.Body(copy.deepcopy(obj))) is None
+    except (KeyError, TypeError, AttributeError, ValueError):
+        fetched_none = None
+
+    async def go() -> Any:
+        if wbox.get('memories') is None:
+            wbox['memories'] = env.inventory.ResourceMemories()
+        return await env.processing.process_resource_event(
+            lifecycle=env.lifecycles.all_at_once, indexers=env.indexers, registry=R.reg, settings=settings,
+            memories=wbox['memories'], memobase=env.ephemera.Memo(), resource=env.resource,
+            raw_event={'type': ev, 'object': obj}, event_queue=asyncio.Queue(), no_throttling=True)
+    env.application.apply = env.apply_recorder
+    try:
+        wbox['loop'].run_until_complete(go())
+        outcome = 'ok'
+    except (KeyError, TypeError, AttributeError, ValueError) as e:
+        outcome = canon.classify_exc(e)
+    finally:
+        env.application.apply = env.real_apply
+    cause = env.seen_causes[0].changing_cause if env.seen_causes else None
+    mem_before = env.seen_memory[0] if env.seen_memory else None
+    mems = list(wbox['memories'].iter_all_memories())
+    applied = env.applied[0] if env.applied else None
+    return {
+        'outcome': outcome, 'cause': cause, 'fetched_none': fetched_none,
+        'patch': applied['patch'] if applied else None, 'delays': applied['delays'] if applied else [],
+        'initial': bool(mem_before and mem_before[0] and not mem_before[1]),
+        'memory_before': mem_before,
+        'memory_after': (bool(mems[0].noticed_by_listing), bool(mems[0].fully_handled_once)) if mems else None,
+        'n_memories': len(mems),
+        'changing': list(env.seen_changing),
+        'calls': copy.deepcopy(R.calls),
+        'selected': list(R.selected[0]) if R.selected else [],
+        'done': any(' is processed: ' in m for m in env.messages),
+        'block': any('Adding the finalizer' in m for m in env.messages),
+        'allow_early': any('as there are no handlers requiring it' in m for m in env.messages),
+        'release': any('thus allowing the actual deletion' in m for m in env.messages),
     }
 
 
@@ -564,12 +662,14 @@ def pass_case(env: Env, R: Registry, ev: Any, obj: dict, carried: dict | None, o
     consistent = not carried
     call = f'cycle {cq.cstr(FIN)} {CEV[ev]} b {fl} {cq.cbool(consistent)} {cq.clist(hdecls)}'
     if obs['outcome'] == 'ok':
-        inv = [R.keys[c['reg']] for c in obs['calls']]     # the registration invoked is known from its param kwarg
+        inv = [R.keys[i] for i in obs['selected']]         # registrations selected by process_changing_cause (param = index)
+        if not set(c['reg'] for c in obs['calls']) <= set(obs['selected']):
+            inv = inv + [999]                              # something ran that was not selected: force a mismatch
         ch = obs['changing']
         ccs = 'None' if not ch else f'(Some {ccause(*ch[0])})'
         t_cycle = (f'match {call} with Ok c => cycle_eqb c {ccs} {cq.clist(cq.cnat(k) for k in inv)} {cq.cbool(obs["block"])} '
                    f'{cq.cbool(obs["allow_early"])} | _ => false end')
-        info.update({'invoked': [c['reg'] for c in obs['calls']], 'changing': ch, 'block': obs['block'],
+        info.update({'selected': obs['selected'], 'invoked': [c['reg'] for c in obs['calls']], 'changing': ch, 'block': obs['block'],
                      'allow_early': obs['allow_early']})
     else:
         t_cycle = f'res_eqb (fun _ _ => true) ({call}) {canon.cres(obs["outcome"])}'
@@ -746,43 +846,114 @@ def user_essence(obj: dict) -> Any:
     return copy.deepcopy({'spec': obj.get('spec'), 'labels': md.get('labels', {}), 'annotations': anns})
 
 
-def run_histories(ctx: fw.Ctx, env: Env, G: g.Gen, n: int, steps: int, D: dict[str, list[fw.Case]]) -> None:
+def caobj(o: dict | None) -> str:
+    if o is None:
+        return 'None'
+    last = 'None' if o['last'] is None else f"(Some {o['last']}%nat)"
+    return (f"(Some (Build_aobj {o['ess']} {last} {cq.cbool(o['deleting'])} {cq.cbool(o['own'])} {cq.cbool(o['foreign'])}))")
+
+
+def camem(m: Any) -> str:
+    return 'None' if m is None else f'(Some (Build_amem {cq.cbool(m[0])} {cq.cbool(m[1])}))'
+
+
+class Abstraction:
+    """Server-side JSON object -> aobj of the closed-loop model. Essences are numbered per history; the current and the
+    stored essence are computed by the REAL diff-base/progress storages (inputs of the model, C04's subject)."""
+
+    def __init__(self, env: Env, R: 'Registry', diffbase: str) -> None:
+        self.env, self.settings = env, env.settings_by[diffbase]
+        self.ids: dict[str, int] = {}
+        self.extra = R.reg._changing.get_extra_fields(resource=env.resource)
+
+    def _id(self, essence: Any) -> int:
+        import json as _json
+        return self.ids.setdefault(_json.dumps(essence, sort_keys=True), len(self.ids))
+
+    def __call__(self, obj: dict | None) -> dict | None:
+        if obj is None:
+            return None
+        p = self.settings.persistence
+        body = self.env.bodies.Body(copy.deepcopy(obj))
+        new = p.progress_storage.clear(essence=p.diffbase_storage.build(body=body, extra_fields=self.extra))
+        old = p.diffbase_storage.fetch(body=body)
+        old = p.progress_storage.clear(essence=old) if old is not None else None
+        fs = obj.get('metadata', {}).get('finalizers', [])
+        return {'ess': self._id(new), 'last': None if old is None else self._id(old), 'deleting': marked_for_deletion(obj),
+                'own': held_by_framework(obj), 'foreign': any(f != FIN for f in fs)}
+
+
+def run_histories(ctx: fw.Ctx, env: Env, G: g.Gen, n: int, steps: int, D: dict[str, list[fw.Case]]) -> list[fw.Case]:
+    """Closed loop through the real process_resource_event: one object on the harness's server, events carrying snapshots
+    (sometimes stale), the recorded patch applied to the CURRENT object. Emits per pass the JSON-level case (pass_hist) and
+    per history one label trace that the Gallina `replay` must accept with the observed object/memory/invocations (T-tie)."""
     r = ctx.rng
+    worlds: list[fw.Case] = []
     for hi in range(n):
         decls = gen_decls(r)
         while not decls:
             decls = gen_decls(r)
+        behav = {d['fn']: r.choice(['ok', 'ok', 'ok', 'ok', 'perm', 'flaky']) for d in decls}
+        for d in decls:
+            d['behav'] = behav[d['fn']]
         R = Registry(env, decls)
         diffbase = 'status' if r.random() < 0.2 else 'annotations'
         empty = r.random() < 0.3        # an object with an empty essence: only system metadata, no spec/labels/annotations
+        obj: dict | None
         if empty:
-            obj: dict | None = {'apiVersion': 'kopf.dev/v1', 'kind': 'KopfExample',
-                                'metadata': {'name': 'obj1', 'namespace': 'ns1', 'uid': f'uid-{hi}', 'resourceVersion': '1'}}
+            obj = {'apiVersion': 'kopf.dev/v1', 'kind': 'KopfExample',
+                   'metadata': {'name': 'obj1', 'namespace': 'ns1', 'uid': f'uid-{hi}', 'resourceVersion': '1'}}
         else:
             obj = {'apiVersion': 'kopf.dev/v1', 'kind': 'KopfExample',
                    'metadata': {'name': 'obj1', 'namespace': 'ns1', 'uid': f'uid-{hi}', 'resourceVersion': '1',
                                 'labels': G.labels()},
                    'spec': {'x': r.choice([1, 2]), 'other': G.obj(1)}}
-        assert obj is not None
         if r.random() < 0.3:
             obj['metadata']['finalizers'] = ['other/finalizer']
         rv = 1
-        box: dict[str, Any] = {'memory': None, 'listing': r.random() < 0.3, 'loop': env_loop(env), 'diffbase': diffbase}
+        A = Abstraction(env, R, diffbase)
+        wbox: dict[str, Any] = {'memories': None, 'loop': env_loop(env), 'diffbase': diffbase}
         handled_snapshot: Any = None       # user essence when the last-handled state was last written
-        completed_here = False             # a handling cycle completed in this incarnation
-        pending: list[Any] = [None if box['listing'] else 'ADDED']
+        mem_exists = False                 # harness's own book-keeping of "this process knows the object"
+        inc_listed = False
+        completed_here = False
+        pending: list[tuple] = []          # (event type, snapshot, handled_snapshot at delivery)
         trace: list[dict] = []
+        labels: list[tuple[str, str]] = []   # (label term, observation term)
+        w0 = f'(Build_world {caobj(A(obj))} None nil)'
+        last_state: dict = copy.deepcopy(obj)
+
+        def deliver(ev: Any) -> None:
+            pending.append((ev, copy.deepcopy(obj if obj is not None else last_state), copy.deepcopy(handled_snapshot)))
+
+        def settle() -> None:
+            nonlocal obj, last_state
+            if obj is not None:
+                last_state = copy.deepcopy(obj)
+                md = obj['metadata']
+                if 'deletionTimestamp' in md and not md.get('finalizers'):
+                    obj = None
+                    deliver('DELETED')
+
+        def mem_obs() -> Any:
+            mems = list(wbox['memories'].iter_all_memories()) if wbox['memories'] is not None else []
+            return (bool(mems[0].noticed_by_listing), bool(mems[0].fully_handled_once)) if mems else None
+
+        deliver(None if r.random() < 0.3 else 'ADDED')
+        ok_history = True
         for step in range(steps):
             if obj is None and not pending:
                 break
-            if not pending:
-                # environment action
-                acts = ['edit', 'edit', 'status', 'delete', 'restart', 'foreign-finalizer', 'label']
+            if not pending or (obj is not None and r.random() < 0.2):
+                if obj is None:
+                    break
+                # ---- environment action (possibly while events are still queued: their snapshots become stale)
+                acts = ['edit', 'edit', 'status', 'delete', 'restart', 'foreign-finalizer', 'label', 'drop-stored']
                 if empty:       # keep the essence empty for a while: echo / relist / status first, then add a label or spec
-                    acts = ['status', 'restart', 'restart', 'foreign-finalizer', 'label', 'edit', 'delete']
+                    acts = ['status', 'restart', 'restart', 'foreign-finalizer', 'label', 'edit', 'delete', 'drop-stored']
                 act = r.choice(acts)
-                assert obj is not None
                 md = obj['metadata']
+                lab = None
                 if act == 'edit':
                     obj.setdefault('spec', {})['x'] = r.choice([1, 2, 3, 'v'])
                 elif act == 'label':
@@ -797,67 +968,106 @@ def run_histories(ctx: fw.Ctx, env: Env, G: g.Gen, n: int, steps: int, D: dict[s
                         fs.append('other/finalizer')
                     if not fs:
                         del md['finalizers']
+                    lab = f"EnvForeign {cq.cbool('other/finalizer' in md.get('finalizers', []))}"
                 elif act == 'delete':
                     md['deletionTimestamp'] = '2020-01-01T00:00:00Z'
+                    lab = 'EnvDelete'
+                elif act == 'drop-stored':
+                    if diffbase == 'status':
+                        if isinstance(obj.get('status'), dict):
+                            obj['status'].pop('kopf', None)
+                    else:
+                        anns = md.get('annotations', {})
+                        for k in [k for k in anns if k.startswith(LAST)]:
+                            del anns[k]
+                        if 'annotations' in md and not anns:
+                            del md['annotations']
+                    lab = 'EnvDropStored'
                 elif act == 'restart':
-                    box = {'memory': None, 'listing': True, 'loop': env_loop(env), 'diffbase': diffbase}
-                    completed_here = False
-                    pending.append(None)
-                    trace.append({'env': act})
-                    continue
+                    wbox['memories'] = None
+                    mem_exists = False
+                    lab = 'Restart'
                 trace.append({'env': act})
+                ctx.count('history_env_action', act)
+                if act == 'restart':
+                    labels.append((lab, f'({caobj(A(obj))}, None, nil)'))
+                    deliver(None)
+                    continue
+                if lab is None:
+                    lab = f"EnvEdit {A(obj)['ess']}"        # status-only edits leave the essence id unchanged
                 rv += 1
                 md['resourceVersion'] = str(rv)
-                if 'deletionTimestamp' in md and not md.get('finalizers'):
-                    pending.append('DELETED')
-                else:
-                    pending.append('MODIFIED')
+                settle()
+                labels.append((f'({lab})', f'({caobj(A(obj))}, {camem(mem_obs())}, nil)'))
+                if obj is not None:
+                    deliver('MODIFIED')
                 continue
-            ev = pending.pop(0)
-            assert obj is not None
-            seen = copy.deepcopy(obj)
+            # ---- the operator processes the next queued event
+            ev, seen, hs_at_delivery = pending.pop(0)
+            stale = obj is None or {k: v for k, v in seen.items()} != obj
             never = not stored_state_present(seen, diffbase)      # "never handled before" = NO last-handled state is stored
-            changed = (not never) and user_essence(seen) != handled_snapshot
-            first_sight = bool(box['listing']) and not completed_here
-            mem = box.get('memory')
-            data = {'registry': decls, 'event': ev, 'object': seen, 'history': copy.deepcopy(trace), 'listing': box['listing'],
-                    'fully_handled_once': bool(mem.fully_handled_once) if mem is not None else False, 'carried_patch': None,
-                    'diffbase': diffbase}
-            obs = run_pass(env, R, box, ev, copy.deepcopy(seen), None)
+            changed = (not never) and user_essence(seen) != hs_at_delivery
+            if not mem_exists:
+                mem_exists, inc_listed, completed_here = True, ev is None, False
+            first_sight = inc_listed and not completed_here
+            data = {'registry': decls, 'event': ev, 'object': seen, 'history': copy.deepcopy(trace), 'listing': inc_listed,
+                    'fully_handled_once': completed_here, 'carried_patch': None, 'diffbase': diffbase}
+            obs = run_event(env, R, wbox, ev, copy.deepcopy(seen))
             for name, case in pass_case(env, R, ev, seen, None, obs, data):
                 D[name + '_hist'].append(case)
             ctx.count('history_pass_stored_state', 'none' if never else 'empty-essence' if user_essence(seen) == {'spec': None, 'labels': {}, 'annotations': {}} and not changed else 'non-empty-or-changed')
+            ctx.count('history_pass_snapshot', 'stale' if stale else 'fresh')
             if obs['outcome'] != 'ok':
                 ctx.correspondence_break('history', {'detail': 'the reactor raised on a well-formed object', 'case': data,
                                                      'outcome': obs['outcome']})
+                ok_history = False
                 break
             monitor_pass(ctx, R, ev, seen, obs, data, never, changed, first_sight)
-            trace.append({'event': ev, 'cause': None if obs['cause'] is None else str(obs['cause'].reason),
+            reached = bool(obs['changing']) and obs['changing'][0][0] in ('create', 'update', 'delete', 'resume')
+            ctx.count('history_pass_outcome', 'done' if obs['done'] else 'not-done' if obs['calls'] else
+                      'skip' if reached else 'no-handling')
+            ctx.count('history_pass_delays', 'none' if not obs['delays'] else 'some')
+            trace.append({'event': ev, 'stale': stale, 'cause': None if obs['cause'] is None else str(obs['cause'].reason),
                           'invoked': [c['fn'] for c in obs['calls']], 'block': obs['block'], 'allow': obs['allow_early'],
-                          'release': obs['release']})
-            if obs['changing'] and obs['changing'][0][0] in ('create', 'update', 'delete', 'resume'):
+                          'release': obs['release'], 'done': obs['done']})
+            if reached and (obs['done'] or not obs['calls']):
                 completed_here = True
             if ev == 'DELETED':
-                obj = None
-                pending.clear()
-                continue
-            # the server applies the patch (merge-patch, then the finalizer transformations as kopf's patching does)
+                mem_exists = False
+            # ---- the label of this pass for the model
+            cause = obs['cause']
+            hdecls = []
+            for h, key in zip(R.handlers, R.keys):
+                pm = bool(env.registries.prematch(handler=h, cause=cause)) if cause is not None else False
+                mt = bool(env.registries.match(handler=h, cause=cause)) if cause is not None else False
+                hdecls.append(chdecl(key, h.reason, h.initial, h.deleted, h.requires_finalizer, pm, mt))
+            snap_abs = A(seen)
+            ran = [R.keys[c['reg']] for c in obs['calls']]
+            lab = (f"(Proc {CEV[ev]} {caobj(snap_abs)[6:-1]} {cq.clist(hdecls)} true {cq.cbool(obs['done'])} "
+                   f"{cq.cbool(not obs['delays'])} {cq.clist(f'{k}%nat' for k in ran)})")
+            # ---- the server applies the recorded patch to the CURRENT object (merge-patch, then the finalizer functions)
             patch = obs['patch']
-            newobj = copy.deepcopy(canon.merge7386(seen, copy.deepcopy(dict(patch))))
-            for f in patch.fns:
-                f(newobj)
-            newobj.setdefault('metadata', {})
-            if patch_stores_state(dict(patch), diffbase):
-                handled_snapshot = user_essence(seen)
-            if newobj != seen:
-                rv += 1
-                newobj['metadata']['resourceVersion'] = str(rv)
-                obj = newobj
-                md = obj['metadata']
-                if 'deletionTimestamp' in md and not md.get('finalizers'):
-                    pending.append('DELETED')
-                else:
-                    pending.append('MODIFIED')
+            if ev != 'DELETED' and patch is not None and obj is not None:
+                newobj = copy.deepcopy(canon.merge7386(obj, copy.deepcopy(dict(patch))))
+                for f in patch.fns:
+                    f(newobj)
+                newobj.setdefault('metadata', {})
+                if patch_stores_state(dict(patch), diffbase):
+                    handled_snapshot = user_essence(seen)
+                if newobj != obj:
+                    rv += 1
+                    newobj['metadata']['resourceVersion'] = str(rv)
+                    obj = newobj
+                    settle()
+                    if obj is not None:
+                        deliver('MODIFIED')
+            invs = cq.clist(f"({R.keys[c['reg']]}%nat, {CR[c['reason']]})" for c in obs['calls'])
+            labels.append((lab, f'({caobj(A(obj))}, {camem(mem_obs())}, {invs})'))
+        if ok_history and labels:
+            steps_term = cq.clist(f'({l}, {o})' for l, o in labels)
+            worlds.append(fw.Case(f'replay {w0} {steps_term}',
+                                  {'registry': decls, 'diffbase': diffbase, 'trace': trace},
+                                  diag=f'observe {w0} {cq.clist(l for l, _ in labels)}'))
         ctx.cov['traces_validated_against_impl'] += 1
         ctx.count('history_kind', ('empty-essence' if empty else 'non-empty') + ':' + diffbase)
         ctx.count('history_length', str(min(len(trace) // 5 * 5, 40)))
@@ -865,6 +1075,7 @@ def run_histories(ctx: fw.Ctx, env: Env, G: g.Gen, n: int, steps: int, D: dict[s
             ctx.nontriv(['history', decls, trace])
         if hi < 1:
             ctx.sample({'history': {'registry': [d['kind'] for d in decls], 'trace': trace[:12]}})
+    return worlds
 
 
 # --------------------------------------------------------------------------------------------
@@ -911,7 +1122,7 @@ def run(ctx: fw.Ctx) -> int:
     deco_cases = run_decorator_table(ctx, env)
     fin_cases = run_finalizers(ctx, env, G, ctx.scale(500, 6000))
     run_passes(ctx, env, G, ctx.scale(2000, 10000), D)
-    run_histories(ctx, env, G, ctx.scale(150, 600), ctx.scale(40, 60), D)
+    world_cases = run_histories(ctx, env, G, ctx.scale(150, 600), ctx.scale(40, 60), D)
     if _LOOP.get('loop') is not None:
         _LOOP['loop'].close()
         _LOOP['loop'] = None
@@ -922,6 +1133,7 @@ def run(ctx: fw.Ctx) -> int:
         ctx.differential(name, HEADER, cases, shard=200)
     for name, cases in D.items():
         ctx.differential(name, HEADER, cases, shard=200)
+    ctx.differential('world_trace', HEADER, world_cases, shard=20)
     ctx.cov['exhaustive'] = {'detect': len(detect_cases), 'select': len(select_cases), 'decorators': len(deco_cases)}
     return ctx.finish(RULE, level_note=[
         'registries.match / prematch (filters, callbacks) are oracle booleans of the model: their values are taken from '
